@@ -343,7 +343,10 @@ class TileWalker(object):
         :param all_subtiles: seed all subtiles and do not check for
                              intersections with bbox/geom
         """
-        bbox_, tiles, subtiles = self.grid.get_affected_level_tiles(cur_bbox, current_level)
+        # inset of 1/10 pixel of the deepest level of the task: an inset taken from the (coarser) level
+        # that is only traversed would drop tiles of the deeper levels next to coarse tile borders
+        bbox_, tiles, subtiles = self.grid.get_affected_level_tiles(
+            cur_bbox, current_level, inset_res=self.tile_mgr.grid.resolutions[max(self.task.levels)])
         total_subtiles = tiles[0] * tiles[1]
         if len(levels) < self.skip_geoms_for_last_levels:
             # do not filter in last levels
